@@ -6,6 +6,7 @@ import (
 	"bytes"
 	"context"
 	"encoding/json"
+	"errors"
 	"fmt"
 	"testing"
 	"time"
@@ -396,23 +397,44 @@ func (c C08Case) run(input, valid []byte) (err error) {
 			if _, err := bs.ReadFrom(bytes.NewReader(b)); err != nil {
 				return err
 			}
-			return bs.Fix(c.Bits)
+			if err := bs.Fix(c.Bits); err != nil {
+				return err
+			}
+			for i := 0; i < bs.Len(); i++ { // what was accepted can be used
+				bs.Get(i)
+			}
+			return nil
 		})
 	case "palette-blocks":
 		pc := level.NewStatesPaletteContainer(4096, 0)
-		return first(func(b []byte) error { _, err := pc.ReadFrom(bytes.NewReader(b)); return err })
+		return first(func(b []byte) error {
+			_, err := pc.ReadFrom(bytes.NewReader(b))
+			return c08PaletteLen(err, palBlocks, b)
+		})
 	case "palette-biomes":
 		pc := level.NewBiomesPaletteContainer(64, 0)
-		return first(func(b []byte) error { _, err := pc.ReadFrom(bytes.NewReader(b)); return err })
+		return first(func(b []byte) error {
+			_, err := pc.ReadFrom(bytes.NewReader(b))
+			return c08PaletteLen(err, palBiomes, b)
+		})
 	case "section":
 		ch := level.EmptyChunk(1)
-		return first(func(b []byte) error { _, err := ch.Sections[0].ReadFrom(bytes.NewReader(b)); return err })
+		return first(func(b []byte) error {
+			_, err := ch.Sections[0].ReadFrom(bytes.NewReader(b))
+			return err
+		})
 	case "putdata":
 		ch := level.EmptyChunk(c.Secs)
-		return first(func(b []byte) error { return ch.PutData(b) })
+		return first(func(b []byte) error {
+			err := ch.PutData(b)
+			return err
+		})
 	case "chunk":
 		ch := level.EmptyChunk(c.Secs)
-		return first(func(b []byte) error { _, err := ch.ReadFrom(bytes.NewReader(b)); return err })
+		return first(func(b []byte) error {
+			_, err := ch.ReadFrom(bytes.NewReader(b))
+			return err
+		})
 	case "blockentity":
 		var be level.BlockEntity
 		return first(func(b []byte) error { _, err := be.ReadFrom(bytes.NewReader(b)); return err })
@@ -464,6 +486,27 @@ func (c C08Case) run(input, valid []byte) (err error) {
 		return first(func(b []byte) error { _, err := r.ReadTagsFrom(bytes.NewReader(b)); return err })
 	}
 	panic("c08: run " + c.Dec)
+}
+
+// errC08DataLen marks "accepted although the data array length is inconsistent" (the statement's "in
+// particular" clause); the caller turns it into a violation.
+var errC08DataLen = errors.New("c08: inconsistent data-array length accepted")
+
+// c08PaletteLen: when the decoder under test accepted the container, the independent reader must not find
+// the announced data-array length inconsistent with entry width x entry count. (Nothing is asked about
+// what Get does with an accepted container whose indices point beyond its palette: the statement is about
+// the decoders.)
+func c08PaletteLen(err error, kind pal.Kind, input []byte) error {
+	if err != nil {
+		return err
+	}
+	if len(input) > 0 && input[0] == 0 {
+		return nil // single-valued container: entries take no bits, vanilla reads and ignores whatever array follows
+	}
+	if _, rerr := pal.Decode(kind, input); errors.Is(rerr, pal.ErrDataLen) {
+		return fmt.Errorf("%w: %v", errC08DataLen, rerr)
+	}
+	return nil
 }
 
 // ---- mutations -----------------------------------------------------------------------------------
@@ -632,6 +675,9 @@ func c08Run(c C08Case, record bool) (*pbt.Violation, int64) {
 		if pv != nil {
 			viol = pbt.V(pbt.PanicKey("c08."+c.Dec, stack), "decoders never panic on peer-controlled bytes",
 				"decoder %s (used=%v) on %s input % x panicked: %v\n%s", c.decName(), c.Used, in.class, clipB(in.b), pv, stack)
+		} else if errors.Is(err, errC08DataLen) {
+			viol = pbt.V("c08.accepts:inconsistent-data-length:"+c.decName(), "negative or inconsistent length prefixes are reported as errors",
+				"decoder %s (used=%v) accepted a container whose data-array length does not fit (%s input): %v\n % x", c.decName(), c.Used, in.class, err, clipB(in.b))
 		} else if in.class == "valid" && err != nil && c.HM == [2]int{} {
 			viol = pbt.V("c08.rejects-valid:"+c.decName(), "valid encodings decode", "decoder %s rejected the reference encoding % x: %v", c.decName(), clipB(in.b), err)
 		} else if in.mustErr != "" && err == nil {
